@@ -483,6 +483,7 @@ Definition outcome_agrees (model observed : outcome) : bool :=
      float(atom.functor), round(v), int(v) -> special_float / OUnknown
      x.compute_value, cmp:a < b -> aeval / body_cmp            range(..), cmp on ints -> total
      raise UnifyError -> OUnifyError      raise CallModeError -> OCallModeError
+     raise ArithmeticError (only once the comparisons are wrapped, see cmp_type_guarded) -> OArithError
      set(..)/sorted(..) -> OAny under the C15 assumption *)
 Definition accounted_prims : list (string * list string) :=
   [("_builtin_between", ["cmp:low_v <= value_v <= high_v"; "int(high)"; "int(low)"; "int(value)"; "range(low_v, high_v + 1)"]);
@@ -496,10 +497,10 @@ Definition accounted_prims : list (string * list string) :=
    ("_builtin_compare", ["c.functor"; "compares[1 - cp]"]);
    ("_builtin_atom_number", ["atom.functor"; "float(atom.functor)"; "int(v)"; "round(v)"]);
    ("_builtin_is", ["b.compute_value"]);
-   ("_builtin_gt", ["arg1.compute_value"; "arg2.compute_value"; "cmp:a_value > b_value"]);
-   ("_builtin_lt", ["arg1.compute_value"; "arg2.compute_value"; "cmp:a_value < b_value"]);
-   ("_builtin_le", ["arg1.compute_value"; "arg2.compute_value"; "cmp:a_value <= b_value"]);
-   ("_builtin_ge", ["arg1.compute_value"; "arg2.compute_value"; "cmp:a_value >= b_value"]);
+   ("_builtin_gt", ["arg1.compute_value"; "arg2.compute_value"; "cmp:a_value > b_value"; "raise ArithmeticError"]);
+   ("_builtin_lt", ["arg1.compute_value"; "arg2.compute_value"; "cmp:a_value < b_value"; "raise ArithmeticError"]);
+   ("_builtin_le", ["arg1.compute_value"; "arg2.compute_value"; "cmp:a_value <= b_value"; "raise ArithmeticError"]);
+   ("_builtin_ge", ["arg1.compute_value"; "arg2.compute_value"; "cmp:a_value >= b_value"; "raise ArithmeticError"]);
    ("_builtin_val_neq", ["a.compute_value"; "b.compute_value"]);
    ("_builtin_val_eq", ["a.compute_value"; "b.compute_value"]);
    ("_builtin_nocache", ["int(arity)"]);
